@@ -85,7 +85,7 @@ class IntervalWalker:
                 excl = excl | {c}
         return lo, hi, excl
 
-    def paths(self, start=0, stop=None, max_paths=3000):
+    def paths(self, start=0, stop=None, max_paths=3000, only=None):
         """all paths from `start` to a return (or to `stop`).  None if undecidable (loop / too many paths)."""
         if self.range is None:
             self.undecided_reason = "input type has no integer range"
@@ -97,6 +97,8 @@ class IntervalWalker:
         while stack:
             bb, lo, hi, excl, trail = stack.pop()
             if lo > hi:
+                continue
+            if only is not None and bb not in only:
                 continue
             if len(out) > max_paths or len(stack) > 20000:
                 self.undecided_reason = "too many paths"
